@@ -169,7 +169,8 @@ Record thread3 (s : state) (id : nat) : Prop := {
   v_bfs : forall o q seen d, tpc (thr s id) = RCheck o q seen -> tkey (thr s id) = Some d ->
           forall x, In x q -> rk x <= rk d;
   v_stored : forall k, tkey (thr s id) = Some k ->
-             forall d, In d (stored (tpc (thr s id)) (groups w s id)) -> In (k, d) (edges s)
+             forall d, In d (stored (tpc (thr s id)) (groups w s id)) -> In (k, d) (edges s);
+  v_key : forall k, tkey (thr s id) = Some k -> k < wn w
 }.
 
 Record inv3 (s : state) : Prop := {
@@ -334,6 +335,34 @@ Proof.
   - intros d' [<-|Hd']; [apply is_done_val; eauto|apply IH2; assumption].
 Qed.
 
+Lemma pedges_step s id e : inv1 w par s -> id < nthr s -> step_local w s id = Some e ->
+  (forall ed, e_edge e = Some ed -> exists g grp i, tpc (thr s id) = PEdges g i /\
+     nth_error (groups w s id) g = Some grp /\ nth_error grp i = Some (snd ed) /\ tkey (thr s id) = Some (fst ed)) /\
+  (forall d, e_tmap e = Some (d, TNil) -> exists g grp i, tpc (thr s id) = PEdges g i /\
+     nth_error (groups w s id) g = Some grp /\ nth_error grp i = Some d).
+Proof.
+  intros Hi Hid H. pose proof (t_mode _ _ _ (i_thr _ _ _ Hi id Hid)) as Hmo.
+  pose proof (cancelled_false w par s (thr s id) Hi) as Hc.
+  local_cases H; cbn; split; intros; try discriminate.
+  all: try (unfold do_release, after_resolve in *;
+            repeat match goal with Hx : context [if ?x then _ else _] |- _ => destruct x end; discriminate).
+  all: try (specialize (Hmo _ (or_intror eq_refl)); discriminate).
+  all: try match goal with Hb : wfix w && cancelled _ _ = true |- _ => rewrite Hc, andb_false_r in Hb; discriminate end.
+  all: match goal with Hx : Some _ = Some _ |- _ => inversion Hx; subst end;
+       do 3 eexists; cbn; repeat split; try reflexivity; eassumption.
+Qed.
+
+Lemma group_key_bound s id g grp i d : inv1 w par s -> inv3 s -> id < nthr s ->
+  nth_error (groups w s id) g = Some grp -> nth_error grp i = Some d -> d < wn w.
+Proof.
+  intros Hi Hk Hid Hg Hd. unfold groups in Hg. destruct (tkey (thr s id)) as [k|] eqn:Ek.
+  - apply (Hwf (inp s k) k). unfold flatd. apply in_concat. eexists; split; eapply nth_error_In; eassumption.
+  - destruct (find (fun r => fst r =? id) (roots s)) as [[id' ks']|] eqn:Ef; [|destruct g; discriminate].
+    apply find_some in Ef. destruct Ef as [Ef1 _].
+    destruct g; [|destruct g; discriminate]. cbn in Hg. inversion Hg; subst grp.
+    eapply (k_roots _ Hk); [exact Ef1|eapply nth_error_In; eassumption].
+Qed.
+
 Lemma inv3_step s id s1 : inv1 w par s -> inv2 w s -> inv3 s -> step w s id = Some s1 -> inv3 s1.
 Proof.
   intros Hi Hj Hk H. destruct (step_spec _ _ _ _ H) as (Hid & e & p & Hl & -> & Hp).
@@ -371,8 +400,14 @@ Proof.
       constructor; rewrite Hc; unfold child_of; cbn; try exact I; try (intros; discriminate); try (intros; contradiction).
       * intros i q. destruct i; discriminate.
       * intros F; exact F.
+      * intros k Hkk. inversion Hkk; subst k.
+        destruct (step_kinds w s id e Hl) as [[A B]|[(r & hp & hi & A1 & A2 & A3 & _)|(g & j' & nw & grp & d' & A1 & A2 & A3 & A4 & A5 & _)]].
+        -- unfold s', apply_eff in E. cbn in E. rewrite B in E. lia.
+        -- unfold s', apply_eff in E. cbn in E. rewrite A3 in E. lia.
+        -- unfold s', apply_eff in Hc. cbn in Hc. rewrite A5, upd_same in Hc. unfold child_of in Hc. inversion Hc; subst.
+           eapply group_key_bound; eassumption.
     + destruct (Nat.eq_dec x id) as [->|Hxi].
-      * constructor; rewrite ?Tself, ?Hgr by assumption; assumption.
+      * constructor; rewrite ?Tself, ?Hgr by assumption; try assumption. rewrite Ib. apply (v_key _ _ Hvid).
       * pose proof (k_thr _ Hk x Hlt) as Hv.
         destruct (Toth x Hlt Hxi) as [E|(hi & r & h & Q1 & Q2 & E)].
         -- constructor; rewrite ?E, ?Hgr by assumption; try apply Hv.
@@ -387,18 +422,8 @@ Proof.
               ** rewrite set_slot_other by assumption. apply (v_slots _ _ Hv).
            ++ intros k Hkk d Hd. apply Hem. eapply (v_stored _ _ Hv); eassumption.
   - intros c d Hin. rewrite Minp. destruct (edges_inv s id e p _ Hin) as [Ho|Hn]; [apply (k_e1 _ Hk); assumption|].
-    (* the edge stored by this step *)
-    clear - Hl Hn. unfold step_local in Hl. cbv zeta in Hl.
-    destruct (tpc (thr s id)) eqn:Epc; try (inversion Hl; subst e; discriminate);
-      repeat match type of Hl with
-             | context [match ?x with _ => _ end] => destruct x eqn:?
-             | context [if ?x then _ else _] => destruct x eqn:?
-             end; try discriminate; inversion Hl; subst e; cbn in Hn; try discriminate.
-    all: try (unfold do_release, after_resolve in Hn;
-              repeat match type of Hn with context [if ?x then _ else _] => destruct x end; discriminate).
-    all: inversion Hn; subst; unfold groups in *;
-      match goal with Hk : tkey _ = Some _ |- _ => rewrite Hk in * end;
-      unfold flatd; apply in_concat; eexists; split; eapply nth_error_In; eassumption.
+    destruct (proj1 (pedges_step s id e Hi Hid Hl) _ Hn) as (g & grp & i & P1 & P2 & P3 & P4). cbn [fst snd] in *.
+    unfold groups in P2. rewrite P4 in P2. unfold flatd. apply in_concat. eexists; split; eapply nth_error_In; eassumption.
   - intros k Hd d Hin. rewrite Minp in Hin. destruct (Hnewdone k Hd) as [Ho|(Ho & C1 & C2 & C3)].
     + destruct (k_e2 _ Hk k Ho d Hin) as [A B]. split; [apply Hem; assumption|apply (Hdm d B)].
     + pose proof (v_stored _ _ Hvid k C2 d) as Vst. rewrite C1 in Vst. cbn [stored] in Vst.
@@ -412,39 +437,16 @@ Proof.
       intros F. unfold s', apply_eff in F. cbn [tmap] in F. destruct (e_tmap e) as [[k' v']|] eqn:Ee; [|congruence].
       unfold upd in F. destruct (Nat.eqb c k'); [|congruence].
       destruct (step_mem w par s id e Hi Hid Hl) as [(B1 & _)|[(k0 & _ & _ & _ & B & _)|[(d0 & _ & B & _)|[(o0 & path & _ & B & _)|(k0 & _ & _ & B & _)]]]]; congruence.
-    + (* stored by the leader of c, whose task holds its pending result *)
-      assert (Hc : tkey (thr s id) = Some c /\ leaderpc (tpc (thr s id)) = true).
-      { clear - Hl Hn. unfold step_local in Hl. cbv zeta in Hl.
-        destruct (tpc (thr s id)) eqn:Epc; try (inversion Hl; subst e; discriminate);
-          repeat match type of Hl with
-                 | context [match ?x with _ => _ end] => destruct x eqn:?
-                 | context [if ?x then _ else _] => destruct x eqn:?
-                 end; try discriminate; inversion Hl; subst e; cbn in Hn; try discriminate.
-        all: try (unfold do_release, after_resolve in Hn;
-                  repeat match type of Hn with context [if ?x then _ else _] => destruct x end; discriminate).
-        all: inversion Hn; subst; split; [assumption|reflexivity]. }
-      destruct Hc as [C1 C2]. destruct (u_leader _ _ _ Huid c C1 C2) as [A _]. rewrite (Ma _ _ A). discriminate.
+    + destruct (proj1 (pedges_step s id e Hi Hid Hl) _ Hn) as (g & grp & i & P1 & P2 & P3 & P4). cbn [fst snd] in *.
+      destruct (u_leader _ _ _ Huid c P4 ltac:(rewrite P1; reflexivity)) as [A _]. rewrite (Ma _ _ A). discriminate.
   - intros k Hne. destruct (tmap s k) eqn:Et; [|apply (k_e5 _ Hk); congruence|apply (k_e5 _ Hk); congruence].
-    (* created by getOrCreateTask for a dependency *)
     unfold s', apply_eff in Hne. cbn [tmap] in Hne. destruct (e_tmap e) as [[k' v']|] eqn:Ee; [|congruence].
     unfold upd in Hne. destruct (Nat.eqb k k') eqn:Ek; [apply Nat.eqb_eq in Ek; subst k'|congruence].
-    clear - Hl Ee Hwf Hk Htid Et. unfold step_local in Hl. cbv zeta in Hl.
-    destruct (tpc (thr s id)) eqn:Epc; try (inversion Hl; subst e; discriminate);
-      repeat match type of Hl with
-             | context [match ?x with _ => _ end] => destruct x eqn:?
-             | context [if ?x then _ else _] => destruct x eqn:?
-             end; try discriminate; inversion Hl; subst e; cbn in Ee; try discriminate; try congruence.
-    all: try (unfold do_release, after_resolve in Ee;
-              repeat match type of Ee with context [if ?x then _ else _] => destruct x end; discriminate).
-    all: inversion Ee; subst.
-    + apply (Hwf (inp s k0) k0). unfold groups in *. rewrite Heqo1 in *. unfold flatd. apply in_concat.
-      eexists; split; eapply nth_error_In; eassumption.
-    + destruct (t_root _ _ _ Htid Heqo1) as (_ & _ & _ & _ & _ & ks & Hr).
-      unfold groups in Heqo. rewrite Heqo1 in Heqo.
-      destruct (find (fun r => fst r =? id) (roots s)) as [[id' ks']|] eqn:Ef; [|destruct g; discriminate].
-      apply find_some in Ef. destruct Ef as [Ef1 Ef2]. cbn in Ef2. apply Nat.eqb_eq in Ef2. subst id'.
-      destruct g; [|destruct g; discriminate]. cbn in Heqo. inversion Heqo; subst l.
-      eapply (k_roots _ Hk); [exact Ef1|eapply nth_error_In; eassumption].
+    destruct (step_mem w par s id e Hi Hid Hl) as [(B1 & _)|[(k0 & B1 & _ & _ & B & _)|[(d0 & _ & B & _)|[(o0 & path & _ & B & _)|(k0 & _ & _ & B & _)]]]]; try congruence.
+    + rewrite B in Ee. inversion Ee; subst. apply (v_key _ _ Hvid). assumption.
+    + rewrite B in Ee. inversion Ee; subst.
+      destruct (proj2 (pedges_step s id e Hi Hid Hl) _ B) as (g & grp & i & P1 & P2 & P3).
+      eapply group_key_bound; eassumption.
   - intros k v Hv. rewrite Minp. assert (Hd : is_done s' k = true) by (apply is_done_val; eauto).
     destruct (Hnewdone k Hd) as [Ho|(Ho & C1 & C2 & C3)].
     + destruct (Hdm k Ho) as [_ E]. rewrite E in Hv. apply (k_val _ Hk); assumption.
@@ -455,6 +457,108 @@ Proof.
       destruct (acc_fresh s _ _ Hk Ua (v_acc _ _ Hvid)) as [Hacc _].
       rewrite (freshv_unfold w rk Hdag (inp s) k). unfold flatd. rewrite Hacc. reflexivity.
   - intros x ks k. rewrite Mroots. apply (k_roots _ Hk).
+Qed.
+
+
+Lemma set_inputs_other ks : forall vs m k, ~ In k ks -> set_inputs m ks vs k = m k.
+Proof.
+  induction ks as [|a ks IH]; intros vs m k Hn; cbn; [reflexivity|]. destruct vs as [|v vs]; [reflexivity|].
+  rewrite IH by (intros F; apply Hn; right; assumption). apply upd_other. intros ->. apply Hn. left. reflexivity.
+Qed.
+
+Lemma inv3_start_run s ks : inv3 s -> (forall k, In k ks -> k < wn w) -> inv3 (start_run s ks).
+Proof.
+  intros Hk Hks. set (s' := start_run s ks).
+  assert (Hnew : thr s' (nthr s) = root_thread (S (nrun s))) by (unfold s', start_run; cbn; apply upd_same).
+  assert (Hoth : forall x, x < nthr s -> thr s' x = thr s x) by (intros x Hx; unfold s', start_run; cbn; apply upd_other; lia).
+  assert (Hgr : forall x, x < nthr s -> groups w s' x = groups w s x) by (intros; apply groups_start_run; assumption).
+  constructor; try apply Hk.
+  - intros x Hx. change (nthr s') with (S (nthr s)) in Hx. destruct (Nat.eq_dec x (nthr s)) as [->|Hxn].
+    + constructor; rewrite Hnew; cbn; try exact I; try (intros; discriminate); try (intros; contradiction).
+      * intros i q. destruct i; discriminate.
+      * intros F; exact F.
+    + assert (Hx' : x < nthr s) by lia. pose proof (k_thr _ Hk x Hx') as Hv.
+      constructor; rewrite ?Hoth, ?Hgr by assumption; apply Hv.
+  - intros x ks' k [Hin|Hin] Hkk; [inversion Hin; subst; apply Hks; assumption|eapply (k_roots _ Hk); eassumption].
+Qed.
+
+(* Evict, possibly after a change of the inputs of the evicted keys *)
+Lemma inv3_evict s ks inp' : inv1 w par s -> inv2 w s -> inv3 s -> quiescent s = true ->
+  (forall k, ~ In k ks -> inp' k = inp s k) ->
+  inv3 (evict w (with_inputs s inp') ks).
+Proof.
+  intros Hi Hj Hk Hq Hinp. set (s1 := with_inputs s inp'). set (s' := evict w s1 ks).
+  set (ev := evict_set w s1 ks).
+  pose proof (quiescent_ended s Hq) as He.
+  assert (Hcl : closed_set (edges s) ev).
+  { unfold ev, evict_set. apply (evict_close_closed (edges s) (wn w)); [|lia].
+    intros c d Hin. apply (k_e5 _ Hk). apply (k_e3 _ Hk _ _ Hin). }
+  assert (Hks : forall k, In k ks -> tmap s k <> TAbsent -> In k ev).
+  { intros k Hin Hm. unfold ev, evict_set. apply evict_close_incl. apply filter_In. split; [assumption|].
+    unfold in_map. cbn. destruct (tmap s k); congruence. }
+  assert (Htm : forall k, tmap s' k = if memb k ev then TAbsent else tmap s k) by reflexivity.
+  assert (Hed : forall c d, In (c, d) (edges s') <-> In (c, d) (edges s) /\ ~ In c ev).
+  { intros c d. unfold s', evict. cbn [edges]. fold ev. rewrite filter_In. cbn [fst].
+    rewrite negb_true_iff, memb_false. reflexivity. }
+  assert (Hdone : forall k, is_done s' k = true -> is_done s k = true /\ ~ In k ev /\ ~ In k ks).
+  { intros k Hd. unfold is_done in Hd. rewrite Htm in Hd. destruct (memb k ev) eqn:Em; [discriminate|].
+    apply memb_false in Em. split; [exact Hd|]. split; [assumption|].
+    intros Hin. apply Em. apply Hks; [assumption|]. unfold is_done in Hd. destruct (tmap s k); congruence. }
+  assert (Hdone' : forall k, is_done s k = true -> ~ In k ev -> is_done s' k = true).
+  { intros k Hd Hn. unfold is_done. rewrite Htm. apply memb_false in Hn. rewrite Hn. exact Hd. }
+  assert (He2 : forall k, is_done s' k = true -> forall d, In d (flatd w (inp s k) k) ->
+                In (k, d) (edges s') /\ is_done s' d = true).
+  { intros k Hd d Hin. destruct (Hdone k Hd) as (D1 & D2 & D3).
+    destruct (k_e2 _ Hk k D1 d Hin) as [A B]. split; [apply Hed; auto|].
+    apply Hdone'; [assumption|]. intros Hdev. apply D2. eapply Hcl; eassumption. }
+  constructor.
+  - intros x Hx. change (nthr s') with (nthr s) in Hx. specialize (He x Hx). pose proof (k_thr _ Hk x Hx) as Hv.
+    change (thr s' x) with (thr s x).
+    constructor; try apply Hv.
+    intros k Hkk d Hd. exfalso. revert Hd. change (thr s' x) with (thr s x).
+    destruct (tpc (thr s x)); try discriminate; cbn; auto.
+  - intros c d Hin. apply Hed in Hin. destruct Hin as [Hin Hn]. change (inp s') with inp'.
+    rewrite Hinp; [apply (k_e1 _ Hk); assumption|].
+    intros Hc. apply Hn. apply Hks; [assumption|apply (k_e3 _ Hk _ _ Hin)].
+  - intros k Hd d Hin. destruct (Hdone k Hd) as (D1 & D2 & D3). change (inp s') with inp' in Hin.
+    rewrite Hinp in Hin by assumption. apply He2; assumption.
+  - intros c d Hin. apply Hed in Hin. destruct Hin as [Hin Hn]. rewrite Htm. apply memb_false in Hn. rewrite Hn.
+    apply (k_e3 _ Hk _ _ Hin).
+  - intros k Hm. rewrite Htm in Hm. destruct (memb k ev); [congruence|]. apply (k_e5 _ Hk). assumption.
+  - intros k v Hv. assert (Hd : is_done s' k = true) by (apply is_done_val; eauto).
+    destruct (Hdone k Hd) as (D1 & D2 & D3).
+    assert (Hv0 : done_val s k = Some v).
+    { unfold done_val in *. rewrite Htm in Hv. apply memb_false in D2. rewrite D2 in Hv. exact Hv. }
+    rewrite (k_val _ Hk _ _ Hv0). change (inp s') with inp'. symmetry.
+    apply (freshv_local w rk Hdag (inp s) inp' (fun k => is_done s' k = true)); [|assumption].
+    intros k0 Hk0. destruct (Hdone k0 Hk0) as (E1 & E2 & E3). split; [apply Hinp; assumption|].
+    intros d0 Hd0. apply (He2 k0 Hk0 d0 Hd0).
+  - intros x ks' k. apply (k_roots _ Hk).
+Qed.
+
+Lemma inv3_event s e s' : inv1 w par s -> inv2 w s -> inv3 s -> do_event w s e = Some s' -> inv3 s'.
+Proof.
+  intros Hi Hj Hk H. destruct e as [t|ks|ks|ks vs]; cbn [do_event] in H.
+  - eapply inv3_step; eassumption.
+  - destruct (forallb (fun k => Nat.ltb k (wn w)) ks) eqn:Ef; inversion H. apply inv3_start_run; [assumption|].
+    intros k Hin. rewrite forallb_forall in Ef. apply Nat.ltb_lt. apply Ef. assumption.
+  - destruct (quiescent s) eqn:Hq; inversion H.
+    replace s with (with_inputs s (inp s)) at 1 by (destruct s; reflexivity).
+    apply inv3_evict; auto.
+  - destruct (quiescent s) eqn:Hq; inversion H. apply inv3_evict; auto.
+    intros k Hn. apply set_inputs_other. assumption.
+Qed.
+
+Lemma inv3_init inputs : inv3 (init par inputs).
+Proof.
+  constructor; cbn; try (intros; lia); try (intros; discriminate); try (intros; contradiction); try (intros; congruence).
+Qed.
+
+Lemma reach_inv3 inputs s : reach w par inputs s -> inv1 w par s /\ inv2 w s /\ inv3 s.
+Proof.
+  induction 1 as [|s e s' Hr (IH1 & IH2 & IH3) He].
+  - split; [apply inv1_init|split; [apply inv2_init|apply inv3_init]].
+  - split; [eapply inv1_event; eassumption|split; [eapply inv2_event; eassumption|eapply inv3_event; eassumption]].
 Qed.
 
 End Inv3.
